@@ -16,10 +16,12 @@ EXTENDS IOStreams, TraceBase
 VARIABLES st, l
 vars == <<st, l>>
 
-DefaultCfg == [ne |-> FALSE, nw |-> FALSE, nr |-> FALSE, custom |-> TRUE, failAt |-> 0 - 1, wkind |-> "plain", omode |-> "default",
+DefaultCfg == [ne |-> FALSE, nw |-> FALSE, nr |-> FALSE, custom |-> TRUE, failAt |-> 0 - 1, wkind |-> "plain", omode |-> "default", nlmode |-> "smart",
                stdin |-> <<>>, pre |-> {}]
 FixCfg(c) == [ne |-> c.ne, nw |-> c.nw, nr |-> c.nr, custom |-> c.custom, failAt |-> c.failAt, wkind |-> c.wkind, omode |-> c.omode,
-              stdin |-> c.stdin, pre |-> {c.pre[k] : k \in 1..Len(c.pre)}]
+              nlmode |-> c.nlmode, stdin |-> c.stdin, pre |-> {c.pre[k] : k \in 1..Len(c.pre)}]
+\* configurations the specification speaks about (CRLF newlines: in the default output mode only)
+CfgInDomain(c) == c.nlmode \in NLModes /\ c.omode \in OModes /\ (c.nlmode = "crlf" => c.omode = "default")
 
 Init == st = InitState(DefaultCfg) /\ l = 1
 
@@ -29,12 +31,31 @@ NotesMatch(got, want) ==
                              /\ want[k].j => (got[k].v = want[k].v /\ got[k].s = want[k].s)
 
 AllCmds == OutCmds \cup SysCmds
-Bag(q) == [c \in AllCmds \cup {"other"} |-> Cardinality({k \in 1..Len(q) : (IF q[k] \in AllCmds THEN q[k] ELSE "other") = c})]
+\* process starts as a multiset; ign: commands whose start is not judged (command lines without a command, unless
+\* NoExec is set: then NOTHING may start)
+Bag(q, ign) == [c \in (AllCmds \ ign) \cup {"other"} |->
+                  Cardinality({k \in 1..Len(q) : q[k] \notin ign /\ (IF q[k] \in AllCmds THEN q[k] ELSE "other") = c})]
+Unjudged(s) == IF s.flags.ne THEN {} ELSE BlankCmds
 
-OpName(act) ==
+\* the kind of name / payload / configuration an action exercises (part of the signature of a rejected trace)
+ArgKind(act) ==
+  IF act.op = "print" /\ ShapeOf(act) # "plain" THEN "-payload-" \o ShapeOf(act) \o (IF st.crlf THEN "-crlf-newline-output" ELSE "")
+  ELSE IF act.op = "print" /\ st.crlf THEN "-crlf-newline-output"
+  ELSE IF ~HasName(act) THEN ""
+  ELSE IF act.name \in NullFiles THEN "-dev-null"
+  ELSE IF act.name \in Dirs THEN "-directory"
+  ELSE IF act.op = "operand" /\ act.name \in SkipOperands THEN "-not-a-file"
+  ELSE IF act.op = "operand" /\ act.name \in Files /\ ~st.fsys[act.name].ex THEN "-missing-file"
+  ELSE IF act.name \in BlankCmds THEN "-blank-command"
+  ELSE IF act.name \in LeadCmds THEN "-command-with-leading-blanks"
+  ELSE IF FileOf(act) # "" /\ ClsOf(act) \in PathClasses THEN "-path-" \o ClsOf(act)
+  ELSE ""
+
+OpName0(act) ==
   IF act.op = "print" THEN (IF act.dest = "stdout" THEN "print-stdout" ELSE IF act.dest = "cmd" THEN "print-pipe"
                             ELSE IF act.name \in StdNames THEN "print-to-std" ELSE IF act.mode = "append" THEN "print-append" ELSE "print-trunc")
   ELSE act.op
+OpName(act) == OpName0(act) \o ArgKind(act)
 
 Fail(what, opname, expected) ==
   /\ Reject(l, [what |-> what, opname |-> opname, expected |-> expected])
@@ -46,7 +67,9 @@ TConfig ==
   /\ l <= NLog /\ Log[l].ev = "step" /\ Log[l].act.op = "config"
   /\ IF Log[l].act.cont
      THEN IF st.result = "run" THEN Fail("continued-run-without-a-finished-one", "config", "the driver recorded a session out of order")
+          ELSE IF ~CfgInDomain(Log[l].act.cfg) THEN Fail("outside-domain", "config", "the driver produced a configuration outside the specified domain")
           ELSE st' = NextRun(st, FixCfg(Log[l].act.cfg)) /\ l' = l + 1
+     ELSE IF ~CfgInDomain(Log[l].act.cfg) THEN Fail("outside-domain", "config", "the driver produced a configuration outside the specified domain")
      ELSE st' = InitState(FixCfg(Log[l].act.cfg)) /\ l' = l + 1
 
 TAct ==
@@ -70,7 +93,7 @@ TEnd ==
          pr  == Prediction(s2)
          lastop == Log[l].act.last
      IN IF pr.errJudged /\ obs.err # pr.err THEN Fail("error-outcome", lastop, [err |-> pr.err])
-        ELSE IF Bag(obs.starts) # Bag(pr.starts) THEN Fail("process-starts", lastop, [starts |-> pr.starts])
+        ELSE IF Bag(obs.starts, Unjudged(s2)) # Bag(pr.starts, Unjudged(s2)) THEN Fail("process-starts", lastop, [starts |-> pr.starts])
         ELSE IF obs.extra # <<>> \/ \E n \in Files : obs.files[n] # pr.files[n] THEN Fail("files", lastop, [files |-> pr.files])
         ELSE IF pr.stdoutJudged /\ ~IsAllowedStdout(obs.stdout, pr.stdout.prog, pr.stdout.kids) THEN Fail("stdout", lastop, [stdout |-> pr.stdout])
         ELSE IF pr.serrJudged /\ obs.serr # pr.serr THEN Fail("stderr", lastop, [serr |-> pr.serr])
